@@ -405,27 +405,14 @@ theorem folds_exact (v : Gen.Variant) (c : Nat) : fold v c ≠ c ↔ FoldSet v c
   case gb18030 => exact gb2022Fold_exact c
   all_goals simp [fold, FoldSet]
 
-/- PENDING: `history_output_prefix` — the lift from the reference run to call histories of the
-with-replacement API:
-
-    theorem history_output_prefix (v : Gen.Variant) (hv : IsEnc v) (text : List Nat)
-        (h : ∀ c ∈ text, isScalar c = true)
-        (calls : a protocol-following history of `Model.encRepl` calls on `efamOfVariant v` whose
-                 sources concatenate to a prefix of `text`, any cuts at character boundaries, any
-                 capacities ≥ the documented minimum, any stop budgets) :
-        ∃ tail, output v text = (calls.flatMap (·.out)) ++ tail ∧
-          ((efamOfVariant v).hasPending (state after the history) = true ↔
-             the decoder that has read `calls.flatMap (·.out)` is outside the ASCII state)
-
-  For the raw (`*_without_replacement`) API the first conjunct is Thm/C04 `enc_history_eq_ref`
-  (events of any history = `eref`); the NCR wrapper `encRepl` has no history theorem yet (C09/C03).
-  Strongest proved statement towards it: `byte_prefix_decodes_clean` — EVERY byte prefix of
-  `output v text`, hence the output after every call of every such history, decodes without an
-  error event to a prefix of `expected v text` — together with `iso2022jp_state_inv` /
-  `has_pending_iff` at every character boundary.  At a call boundary between an escape sequence
-  and its character the encoder is already in the new state and the bytes end with the escape
-  sequence, so the two sides still agree; that case is checked by the harness oracle
-  (`iso_state_is_ascii` over the bytes emitted after every call) and the `enc` correspondence. -/
+/- `history_output_prefix` — the lift from the reference run to call histories, formerly PENDING here —
+   is proved in `Thm/C12Hist.lean` (`history_output_prefix`, `history_output_prefix_raw`,
+   `complete_history_output`: what ANY history of raw / with-replacement calls has written so far is a
+   byte prefix of `output v text`, hence decodes cleanly by `byte_prefix_decodes_clean`; after the final
+   call it is `output v text`) and `Thm/C12State.lean` (`has_pending_iff_history`,
+   `has_pending_iff_repl_history`: `has_pending_state()` ⇔ the decoder that has read the bytes so far is
+   outside the ASCII state, after EVERY call — also one that stopped between an escape sequence and its
+   character). -/
 
 /-! ### non-vacuity -/
 
